@@ -584,6 +584,103 @@ func runC10(r *Run) {
 	} else {
 		r.Bad("R14", "anchor/erc20 GenesisState.Validate", "", "not found")
 	}
+	r.Rule("R16", "PATH.automatic-conversions-need-an-evm-address: the conversions that run without the holder's own conversion message (IBC receive, IBC refund on error/timeout, the bank send wrapper) name the ERC20 holder with common.BytesToAddress, which keeps the last 20 bytes of whatever it is given; each of their ConvertCoin calls is therefore reachable only over the edge on which len(address) == 20 — in the function itself or in every same-package caller. Interchain accounts hosted on the chain (and every address.Module/Derive account) have 32-byte addresses: the holder is debited, the tokens land at an unrelated address, and the operation reports success")
+	{
+		lenOf := func(x ssa.Value) (ssa.Value, bool) {
+			c, ok := stripValue(x).(*ssa.Call)
+			if !ok {
+				return nil, false
+			}
+			b, ok := c.Call.Value.(*ssa.Builtin)
+			if !ok || b.Name() != "len" {
+				return nil, false
+			}
+			return stripValue(c.Call.Args[0]), true
+		}
+		// the account addresses a call works for: AccAddress-typed parameters / call results in the slice of its arguments
+		involved := func(call ssa.CallInstruction) []ssa.Value {
+			var out []ssa.Value
+			seen := map[ssa.Value]bool{}
+			backSlice(call.Common().Args...).Any(func(v ssa.Value) bool {
+				if namedName(v.Type()) != "AccAddress" || seen[v] {
+					return false
+				}
+				switch v.(type) {
+				case *ssa.Parameter, *ssa.Call, *ssa.Extract:
+					seen[v] = true
+					out = append(out, v)
+				}
+				return false
+			})
+			return out
+		}
+		guarded := func(f *ssa.Function, target ssa.CallInstruction) bool {
+			inv := involved(target)
+			if len(inv) == 0 {
+				return false
+			}
+			for _, a := range inv {
+				eq, _ := condEdges(f, func(x, y ssa.Value) bool {
+					root, ok := lenOf(x)
+					if !ok || root != a {
+						return false
+					}
+					nn, okc := constInt(y)
+					return okc && nn == 20
+				})
+				if len(eq) == 0 {
+					return false
+				}
+				if (PathQuery{Fn: f, Target: func(x ssa.Instruction) bool { return x == target.(ssa.Instruction) }, DelEdge: edgeSet(eq)}).Search() != nil {
+					return false
+				}
+			}
+			return true
+		}
+		nSites := 0
+		for _, fn := range P.Funcs {
+			pp := fnPkgPath(fn)
+			if !isHaqqPath(pp) || isTestSupport(P, fn) || fn.Synthetic != "" {
+				continue
+			}
+			auto := (pathHasSuffix(pp, "x/erc20/keeper") && strings.HasSuffix(P.FileOf(fnPos(outermost(fn))), "ibc_callbacks.go")) || pathHasSuffix(pp, "x/bank/keeper")
+			if !auto {
+				continue
+			}
+			idx := 0
+			eachCall(fn, func(ci CallInfo) {
+				if ci.Name != "ConvertCoin" {
+					return
+				}
+				idx++
+				nSites++
+				ok := guarded(fn, ci.Instr)
+				via := "in the function"
+				if !ok {
+					// every same-package static caller guards its call of fn
+					nCallers, allGuard := 0, true
+					for _, g := range P.Funcs {
+						if fnPkgPath(g) != pp || isTestSupport(P, g) || g.Synthetic != "" {
+							continue
+						}
+						eachCall(g, func(cj CallInfo) {
+							if cj.Static == fn {
+								nCallers++
+								if !guarded(g, cj.Instr) {
+									allGuard = false
+								}
+							}
+						})
+					}
+					ok = nCallers > 0 && allGuard
+					via = fmt.Sprintf("in each of its %d same-package callers", nCallers)
+				}
+				r.Check(ok, "R16", fmt.Sprintf("%s#ConvertCoin-%d-needs-a-20-byte-holder", fnID(fn), idx), P.Pos(instrPos(ci.Instr)), "reachable only where len(address) == 20 ("+via+")",
+					"an automatic conversion is reachable for a holder whose address is not 20 bytes long: 10 uosmo sent over IBC to an interchain account (32-byte address) leave the account with 0 coins and put 10 tokens at the unrelated truncated address; a bank MsgSend of 100 of a registered coin to a 32-byte address returns no error, debits the sender and credits nobody who can spend")
+			})
+		}
+		r.Floor("R16", "automatic ConvertCoin sites (IBC callbacks, bank send wrapper)", nSites, 3)
+	}
 	r.Rule("R15", "ERR.a-failed-step-fails-the-conversion: every conversion debits one side first and credits the other afterwards, so a step whose error does not stop it leaves a credit without its debit. (a) In the four conversion functions and their two entry points a non-nil error of any Context-taking keeper / Haqq call reaches only failure exits (a `:=` that shadows the function's err, an assignment without return, lose it); (b) in the EVM hook, whose errors skip the log instead of failing the transaction, the failing side of the internal `burn` call's error cannot reach the payout of that same log (the shadowed-err slip: the test after the switch looks at another variable)")
 	{
 		var fns []*ssa.Function
